@@ -149,3 +149,17 @@ claim('C07', 'model_checking',
       _TB + '; struct inside sc3.base._osclib packs symbolic timetags as placeholders; times below 10^6 s.',
       'symbolic co-simulation / symbolic execution of the score + independent OSC decoding + SMT validity',
       'DESIGN.md 3/C07')
+
+claim('C06', 'other',
+      'Decided by solvers: (a) CrossHair confirms over all paths, for symbolic bytes (<= 6) and any int, blob '
+      'round-trip/alignment/padding, blob size prediction >= real size and int32 round-trip/refusal on the real '
+      'codecs; (b) z3 proves on the real NetAddr._clump_bundle loop, with SYMBOLIC element sizes and limit (both call '
+      'sites), that every clump\'s real size 16 + sum(4 + s_i) stays within the limit whenever each element fits alone '
+      'and that elements are carried once and in order (models replayed with real messages of those sizes); (c) the '
+      '/d_recv-or-file decision against the real encoded size across the UDP-limit boundary. Bug hunting only (stated '
+      'as such in the evidence): CrossHair on symbolic str arguments and whole message/bundle templates against an '
+      'independent OSC 1.0 reader -- it refutes (and found three defects) but cannot confirm because utf-8 '
+      'decode of symbolic bytes is realised.',
+      _TB + '; CrossHair 0.0.110; vf/oscref.py is the reference reader.',
+      'CrossHair symbolic execution of the real codecs (confirmations) + SMT validity on the clump loop; symbolic-str '
+      'conditions bug-hunting only', 'DESIGN.md 3/C06')
